@@ -725,6 +725,8 @@ package gateway
 //@   let s0 = old(h.snOutN)
 //@   ensures [C13] disconnect_when_active_or_awake: (old(state(h)) == 1 || old(state(h)) == 3) ==> (h.snOutN == s0 || h.snOutN == s0 + 1) &&
 //@      (h.snOutN == s0 + 1 ==> istype(h.snOut[s0], *snPkts1.Disconnect) && h.snOut[s0].(*snPkts1.Disconnect).Duration == 0)
+//@   at snSend.0 before let told = arg(1)
+//@   ensures [C13] client_is_told_exactly_when_active_or_awake: (old(state(h)) == 1 || old(state(h)) == 3) == bound(told)
 //@   ensures [C13] no_disconnect_otherwise: !(old(state(h)) == 1 || old(state(h)) == 3) ==> h.snOutN == s0 && sameSlice(h.pktBuffer, old(h.pktBuffer))
 //@   ensures [C13] client_connection_released: calls(snCancel) == old(calls(snCancel)) + 1
 
